@@ -17,6 +17,10 @@ class RequestError(Exception):
     """operation selection / variable coercion failure (no data)"""
 
 
+class Unspecified(Exception):
+    """the specification does not determine the outcome for this request"""
+
+
 class WorldResolverError(Exception):
     def __init__(self, message, extensions):
         Exception.__init__(self, message)
@@ -238,9 +242,8 @@ def coerce_with_vars(spec, t, node, variables):
                 try:
                     out.append(coerce_with_vars(spec, t[1], v, variables))
                 except KeyError:
-                    if t[1][0] == "nn":
-                        raise GS.Reject("unset variable for non-null item")
-                    out.append(None)
+                    # June-2018 only defines unset variables for whole arguments
+                    raise Unspecified("unset variable inside a list literal")
             return out
         return [coerce_with_vars(spec, t[1], node, variables)]
     n = t[1]
@@ -263,12 +266,15 @@ def coerce_with_vars(spec, t, node, variables):
                     out[py] = coerce_with_vars(spec, ft, given[f["name"]], variables)
                     continue
                 except KeyError:
-                    pass  # unset variable: as if the field was not provided
+                    raise Unspecified("unset variable inside an object literal")
             if "default" in f:
                 out[py] = GS.coerce_ref(spec, ft, f["default"])
             elif ft[0] == "nn":
                 raise GS.Reject("missing required input field")
         return out
+    if n not in GS.BUILTIN_SCALARS and spec.kind(n) == "scalar" and k != "StringValue":
+        # what a custom scalar makes of a non-string literal is the scalar's own business (C07)
+        raise Unspecified("non-string literal for a custom scalar")
     if k in ("ListValue", "ObjectValue"):
         raise GS.Reject("container for leaf")
     return GS.coerce_ref(spec, t, value_of(node, {}))
@@ -339,7 +345,14 @@ def execute(spec, text, payload, world, operation_name=None, root_value=None, op
             if dn not in ("skip", "include"):
                 continue
             argn = {a["name"]["value"]: a["value"] for a in d["arguments"]}
-            cond = coerce_with_vars(spec, ("nn", ("named", "Boolean")), argn["if"], variables)
+            try:
+                cond = coerce_with_vars(spec, ("nn", ("named", "Boolean")), argn["if"], variables)
+            except (GS.Reject, KeyError):
+                # e.g. a nullable variable with a default, explicitly null, in `if: Boolean!`:
+                # the specification says "field error" without saying which field
+                raise Unspecified("directive condition is not coercible")
+            if not isinstance(cond, bool):
+                raise Unspecified("directive condition is not a boolean")
             if dn == "skip" and cond:
                 return True
             if dn == "include" and not cond:
